@@ -1824,6 +1824,17 @@ class Interp:
             # hit are never evaluated (no decision is recorded for them)
             ge, g = e.args[0], e.args[0].generators[0]
             it = self.strip_iter(self.eval(g.iter, env))
+            if isinstance(it, Obj) and it.cls == "generator" and len(e.args) == 1:
+                # next(<elt> for t in <generator> if <cond>): the loop `for t in gen: if cond: break` (else: StopIteration), then <elt> for the
+                # element it stopped at
+                sub = {"__module__": env["__module__"], "__parent__": env, "__cls__": env.get("__cls__"), "__self__": env.get("__self__"), "next_iter_": it}
+                test = g.ifs[0] if len(g.ifs) == 1 else (ast.BoolOp(op=ast.And(), values=list(g.ifs)) if g.ifs else ast.Constant(value=True))
+                loop = ast.For(target=g.target, iter=ast.Name(id="next_iter_", ctx=ast.Load()), body=[ast.If(test=test, body=[ast.Break()], orelse=[])],
+                               orelse=[ast.Raise(exc=ast.Call(func=ast.Name(id="StopIteration", ctx=ast.Load()), args=[], keywords=[]), cause=None)])
+                ast.copy_location(loop, e)
+                ast.fix_missing_locations(loop)
+                self.exec_stmt(loop, sub)
+                return self.eval(ge.elt, sub)
             if isinstance(it, (list, tuple, range, dict)):
                 sub = {"__module__": env["__module__"], "__parent__": env, "__cls__": env.get("__cls__"), "__self__": env.get("__self__")}
                 for x in it:
